@@ -1207,9 +1207,9 @@ func verifC08Setup(t *testing.T) (decs []verifC08Decoder, enumerate func(fn func
 	for i := range bases {
 		bases[i].light = !(i == 0 || i == 1)
 	}
+	verifC08SecondaryOnOK = false // both tiers: the second codec runs on panicking and every 8th case only
 	if tier != "thorough" {
 		step = 5
-		verifC08SecondaryOnOK = false
 		// one HT code-block costs ~0.7 ms in NewVLCDecoder.buildLookupTables, a valid 8x8x3 stream ~11 ms:
 		// the quick tier substitutes bytes/words only in the two cheapest streams and truncates the others at every 4th offset
 	}
@@ -1271,13 +1271,14 @@ func verifC08Setup(t *testing.T) (decs []verifC08Decoder, enumerate func(fn func
 		for bi := range blocks {
 			b := &blocks[bi]
 			for _, msbs := range []int{0, 1, b.ctx.kmax - 1, b.ctx.kmax, 29, 30, -1} {
-				if msbs != 0 && (bi%4 != 0 || (len(b.data) > 256 && tier != "thorough")) {
+				if msbs != 0 && (bi%4 != 0 || len(b.data) > 256) {
 					continue
 				}
 				ctx := b.ctx
 				ctx.msbs = msbs
 				verifC08Block = &ctx
 				nb := b.verifC08Base
+				nb.light = tier == "thorough" && len(nb.data) > 256 // 64x64 blocks: 15 substitution values also in the thorough tier
 				nb.name = fmt.Sprintf("code-block %s decoded as %dx%d Kmax=%d missingMSBs=%d", b.name, ctx.w, ctx.h, ctx.kmax, ctx.msbs)
 				pre := []verifC08Base{{name: "code-block prefix=none (pure random) decoded as " + nb.name}}
 				if len(nb.data) > 64 && tier != "thorough" {
@@ -1340,7 +1341,7 @@ func verifC08Setup(t *testing.T) (decs []verifC08Decoder, enumerate func(fn func
 func TestVerif_C08_htj2k(t *testing.T) {
 	decs, enumerate, domain := verifC08Setup(t)
 	verifC08RunC08(t, verifC08Pkg, decs, verifC08DeclaredHT, verifC08Excluded, enumerate,
-		"C08 no-panic, entries (*htj2k.Codec).Decode with lossless codec/nil params (all cases) and lossy codec/typed params (thorough: accepted, panicking and every 8th case; quick: panicking and every 8th case), and the HT block decoder object; "+domain)
+		"C08 no-panic, entries (*htj2k.Codec).Decode with lossless codec/nil params (all cases) and lossy codec/typed params (panicking and every 8th case), and the HT block decoder object; "+domain)
 }
 
 func TestVerif_C09_htj2k(t *testing.T) {
